@@ -32,31 +32,53 @@ func switchTable(fn *ssa.Function, isSel func(ssa.Value) bool) map[int64]*ssa.Ba
 	return out
 }
 
-// calleesFrom lists the callee keys of calls reachable from block b without
-// leaving the region dominated by b.
+// calleesFrom lists the callee keys of calls made in the region dominated by b,
+// following static calls into package-ch helpers (depth 2); a dynamic call of a
+// helper's parameter is attributed to the field the argument was loaded from.
 func calleesFrom(b *ssa.BasicBlock) []string {
 	set := map[string]bool{}
-	for _, x := range b.Parent().Blocks {
-		if x != b && !b.Dominates(x) {
-			continue
-		}
-		for _, in := range x.Instrs {
-			call, ok := in.(ssa.CallInstruction)
-			if !ok {
-				continue
-			}
-			f := core.CalleeFunc(call)
-			if f == nil {
-				if o := core.FieldOrigin(call.Common().Value, 0); o != "" {
-					set["field:"+o] = true
+	var scan func(blocks []*ssa.BasicBlock, argOrigin map[*ssa.Parameter]string, d int)
+	scan = func(blocks []*ssa.BasicBlock, argOrigin map[*ssa.Parameter]string, d int) {
+		for _, x := range blocks {
+			for _, in := range x.Instrs {
+				call, ok := in.(ssa.CallInstruction)
+				if !ok {
+					continue
 				}
-				continue
-			}
-			if f.Pkg() != nil && f.Pkg().Path() == core.PkgCh && core.RecvNamed(f) != nil {
-				set[f.Name()] = true
+				f := core.CalleeFunc(call)
+				if f == nil {
+					v := call.Common().Value
+					if o := core.FieldOrigin(v, 0); o != "" {
+						set["field:"+o] = true
+					} else if pr, ok := v.(*ssa.Parameter); ok && argOrigin[pr] != "" {
+						set["field:"+argOrigin[pr]] = true
+					}
+					continue
+				}
+				if f.Pkg() != nil && f.Pkg().Path() == core.PkgCh && core.RecvNamed(f) != nil {
+					set[f.Name()] = true
+					if sf := core.StaticFn(call); sf != nil && sf.Blocks != nil && d < 2 {
+						ao := map[*ssa.Parameter]string{}
+						for i, a := range call.Common().Args {
+							if i < len(sf.Params) {
+								if o := core.FieldOrigin(a, 0); o != "" {
+									ao[sf.Params[i]] = o
+								}
+							}
+						}
+						scan(sf.Blocks, ao, d+1)
+					}
+				}
 			}
 		}
 	}
+	var region []*ssa.BasicBlock
+	for _, x := range b.Parent().Blocks {
+		if x == b || b.Dominates(x) {
+			region = append(region, x)
+		}
+	}
+	scan(region, nil, 0)
 	var out []string
 	for k := range set {
 		out = append(out, k)
@@ -378,7 +400,18 @@ func runC03(c *Ctx) {
 			if o == "Query.OnInput" {
 				return false // C09
 			}
-			return strings.HasPrefix(o, "Query.On") || o == "decodeOptions.Handler"
+			if strings.HasPrefix(o, "Query.On") || o == "decodeOptions.Handler" {
+				return true
+			}
+			// a callback handed to a helper as parameter: func(context.Context, ...) error
+			if pr, ok := call.Common().Value.(*ssa.Parameter); ok {
+				if sig, ok := pr.Type().Underlying().(*types.Signature); ok && sig.Params().Len() >= 1 && core.IsNamed(sig.Params().At(0).Type(), "context", "Context") {
+					if _, hasErr := core.ReturnsError(sig); hasErr && pkgOf(fn) != nil && pkgOf(fn).Path() == core.PkgCh {
+						return true
+					}
+				}
+			}
+			return false
 		}
 		rd := readerClass(p)
 		again := func(fn *ssa.Function, call ssa.CallInstruction) bool {
@@ -539,7 +572,20 @@ func runC03(c *Ctx) {
 		// chain assembly
 		ex := p.Method(core.PkgCh, "Client", "exception")
 		if ex != nil {
-			checkWiring(c, p, rule, ex, "Exception", map[string]string{"Code": "Exception.Code", "Name": "Exception.Name", "Message": "Exception.Message", "Stack": "Exception.Stack"})
+			lit := ex
+			for f := range core.StaticReach(ex, 1) {
+				if f == ex || pkgOf(f) == nil || pkgOf(f).Path() != core.PkgCh {
+					continue
+				}
+				for _, b := range f.Blocks {
+					for _, in := range b.Instrs {
+						if fa, ok := in.(*ssa.FieldAddr); ok && core.IsNamed(fa.X.Type(), core.PkgCh, "Exception") {
+							lit = f
+						}
+					}
+				}
+			}
+			checkWiring(c, p, rule, lit, "Exception", map[string]string{"Code": "Exception.Code", "Name": "Exception.Name", "Message": "Exception.Message", "Stack": "Exception.Stack"})
 			for _, m := range rangeSliceMismatch(ex) {
 				c.R.Bad(rule, core.FuncName(ex)+"/chain-index", cfg, p.Pos(m.Pos()), "a loop over list[k:] indexes the un-sliced list with its own index: nested exceptions are shifted (top duplicated, innermost dropped)")
 			}
@@ -639,7 +685,7 @@ func checkWiring(c *Ctx, p *core.Program, rule string, fn *ssa.Function, tname s
 				}
 				n++
 				got := core.FieldOrigin(s.Val, 0)
-				key := core.FuncName(fn) + "/" + tname + "." + fname
+				key := "literal/" + tname + "." + fname
 				if got == exp || strings.HasSuffix(got, "."+strings.SplitN(exp, ".", 2)[1]) && got == exp {
 					c.R.Ok(rule, key, p.Cfg.Name, p.Pos(s.Pos()), fname+" <- "+got)
 				} else {
